@@ -164,8 +164,17 @@ static J gen_cooling(Chooser &ch)
   const double xr = m.kernel[0] + (ch.flip() ? 1 : -1) * ch.lattice(1200e3, 4000e3, 100e3);
   if (kind != "plate model constant age")
     {
-      t["spreading velocity"] = ch.real(0.01, 0.15);
-      t["ridge coordinates"] = J::arr({J::arr({jp(xr, m.kernel[1] - 6000e3), jp(xr, m.kernel[1] + 6000e3)})});
+      // the ridge x = xr through 2..4 points; a constant spreading velocity or one per ridge point (linear in between)
+      const int np = static_cast<int>(ch.range(2, 4));
+      J rd = J::arr(), vs = J::arr();
+      for (int i = 0; i < np; ++i)
+        {
+          rd.push(jp(xr, m.kernel[1] - 6000e3 + 12000e3 * i / (np - 1.0)));
+          vs.push(J(ch.lattice(0.01, 0.15, 0.005)));
+        }
+      t["ridge coordinates"] = J::arr({rd});
+      if (ch.chance(50)) t["spreading velocity"] = ch.real(0.01, 0.15);
+      else t["spreading velocity"] = J::arr({J::arr({J(0.0), J::arr({vs})})});
     }
   else t["plate age"] = ch.logreal(2e5, 2e8);
   feat["temperature models"] = J::arr({t});
@@ -174,6 +183,56 @@ static J gen_cooling(Chooser &ch)
   J c = J::obj();
   c["world"] = root.dump(); c["xr"] = xr;
   c["queries"] = g::gen_queries(ch, w, static_cast<int>(ch.range(5, 25)), 100);
+  return c;
+}
+
+// spherical: the ridge runs along the equator (2..4 points, up to 300 degrees long, written anywhere in [-360,360]), so the ridge
+// point closest to (lon, lat) is (lon, 0) at the great-circle distance R |lat| and the spreading velocity there is the linear
+// interpolation of the per-point values at that longitude - whichever 360-degree copy of the longitude the code works with
+static J gen_cooling_sph(Chooser &ch)
+{
+  g::Frame fr; fr.sph = true; fr.R = ch.pick<double>({6371e3, 6371e3, 3390e3}); fr.depth_method = "starting point";
+  J root = J::obj();
+  g::frame_to_json(fr, root);
+  gen_globals(ch, root);
+  const double span = ch.chance(40) ? ch.lattice(150, 300, 5) : ch.lattice(20, 150, 5);
+  const double la = ch.lattice(-360, 360 - span, 5), lb = la + span;
+  const int np = static_cast<int>(ch.range(2, 4));
+  J rd = J::arr(), vs = J::arr();
+  std::vector<double> lons = {la, lb};
+  for (int i = 2; i < np; ++i) lons.push_back(la + ch.lattice(0.1, 0.9, 0.05) * span);
+  std::sort(lons.begin(), lons.end());
+  lons.erase(std::unique(lons.begin(), lons.end()), lons.end());
+  for (double l : lons) { rd.push(jp(l, 0.0)); vs.push(J(ch.lattice(0.01, 0.15, 0.005))); }
+  // the plate: a box of longitudes inside the ridge's range, on one side of the equator or across it
+  const double w = std::min(0.45 * span, ch.lattice(5, 40, 1)), lc = la + w + ch.real(0, 1) * (span - 2 * w);
+  const double s0 = ch.flip() ? 1 : -1, p1 = s0 * ch.lattice(-5, 20, 1), p2 = p1 + s0 * ch.lattice(5, 30, 1);
+  J feat = J::obj();
+  feat["model"] = "oceanic plate"; feat["name"] = "plate";
+  feat["coordinates"] = J::arr({jp(lc - w, std::min(p1, p2)), jp(lc + w, std::min(p1, p2)), jp(lc + w, std::max(p1, p2)), jp(lc - w, std::max(p1, p2))});
+  const double dmax = ch.lattice(60e3, 200e3, 10e3);
+  feat["min depth"] = 0.0; feat["max depth"] = dmax;
+  const std::string kind = ch.pick<std::string>({"half space model", "plate model"});
+  J t = J::obj();
+  t["model"] = kind; t["max depth"] = dmax;
+  t["top temperature"] = ch.lattice(250, 320, 5);
+  t["bottom temperature"] = ch.chance(35) ? -1.0 : ch.lattice(1400, 1900, 50);
+  t["ridge coordinates"] = J::arr({rd});
+  if (ch.chance(30)) t["spreading velocity"] = ch.real(0.01, 0.15);
+  else t["spreading velocity"] = J::arr({J::arr({J(0.0), J::arr({vs})})});
+  feat["temperature models"] = J::arr({t});
+  root["features"] = J::arr({feat});
+  J c = J::obj();
+  c["world"] = root.dump(); c["sph"] = true; c["R"] = fr.R;
+  J qs = J::arr();
+  const int nq = static_cast<int>(ch.range(5, 20));
+  for (int i = 0; i < nq; ++i)
+    {
+      const double lon = lc + ch.real(-w, w), lat = std::min(p1, p2) + ch.real(0, 1) * std::fabs(p2 - p1);
+      qs.push(g::make_query(fr, lon, lat, ch.real(0, dmax)));
+      qs.a.back()["written_lon"] = lon; // the longitude in the ridge's own 360-degree copy
+    }
+  c["queries"] = qs;
   return c;
 }
 
@@ -196,9 +255,31 @@ static Result check_cooling(const J &c)
       // "The temperature at the bottom ... If the value is below zero, an adiabatic temperature is used."
       const double Tb = t.at("bottom temperature").num() < 0 ? adiabat(G, depth) : t.at("bottom temperature").num();
       double want, tol = 1e-8;
+      // distance to the closest ridge point and the spreading velocity (m/yr) there
+      double dist = 0, vel = 0;
+      if (kind != "plate model constant age")
+        {
+          const J &rd = t.at("ridge coordinates")[0];
+          const bool sph = c.has("sph") && c.at("sph").boolean();
+          // the coordinate along the ridge: y (cartesian ridge x = xr) or the longitude (ridge along the equator)
+          const double u = sph ? q.at("written_lon").num() : q.at("nat")[1].num();
+          dist = sph ? c.at("R").num() * std::fabs(q.at("nat")[1].num()) * DEG : std::fabs(q.at("nat")[0].num() - c.at("xr").num());
+          if (t.at("spreading velocity").is_num()) vel = t.at("spreading velocity").num();
+          else
+            {
+              const J &vs = t.at("spreading velocity")[0][1][0];
+              const size_t ax = sph ? 0 : 1;
+              for (size_t i = 0; i + 1 < rd.size(); ++i)
+                if (u >= rd[i][ax].num() && u <= rd[i + 1][ax].num())
+                  vel = vs[i].num() + (vs[i + 1].num() - vs[i].num()) * (u - rd[i][ax].num()) / (rd[i + 1][ax].num() - rd[i][ax].num());
+              r.classes.push_back("one spreading velocity per ridge point");
+            }
+          if (sph) { r.classes.push_back("spherical, ridge along the equator"); if (std::fabs(q.at("written_lon").num() - std::atan2(q.at("p")[1].num(), q.at("p")[0].num()) / DEG) > 1) r.classes.push_back("ridge written in another 360-degree copy than the query's natural longitude"); }
+          if (!(vel > 0) || dist < 1.0) continue;
+        }
       if (kind == "half space model")
         {
-          const double age_s = std::fabs(q.at("nat")[0].num() - c.at("xr").num()) / t.at("spreading velocity").num() * year; // distance to the ridge over the spreading velocity (m/yr)
+          const double age_s = dist / vel * year; // distance to the ridge over the spreading velocity (m/yr)
           want = Tb + (Tt - Tb) * std::erfc(depth / (2 * std::sqrt(G.kappa * age_s)));
         }
       else
@@ -212,8 +293,8 @@ static Result check_cooling(const J &c)
               long double e;
               if (kind == "plate model")
                 {
-                  const long double v = t.at("spreading velocity").num() / year; // m/s
-                  const long double age_s = std::fabs(q.at("nat")[0].num() - c.at("xr").num()) / v;
+                  const long double v = vel / year; // m/s
+                  const long double age_s = dist / v;
                   const long double Rn = v * L / (2 * G.kappa);
                   e = std::exp((Rn - std::sqrt(Rn * Rn + static_cast<long double>(n) * n * PI * PI)) * (v * age_s / L));
                 }
@@ -544,7 +625,8 @@ int main(int argc, char **argv)
   return run_main("C05", argc, argv,
   {
     {"area_temperature", "continental / oceanic / mantle-layer features with one uniform, adiabatic, linear or (continental) chapman model; model range absent / wider / narrower / shifted against the feature range; sentinels (-1) for top/bottom/potential temperature, alpha, cp; operations replace/add/subtract over the background; both coordinate systems; interior points by construction. Oracle: the documented expression (1e-10). Non-trivial: depth inside the model range", 150, gen_area, check_area, 100, true, true},
-    {"oceanic_cooling", "cartesian oceanic plate with half space / plate / constant-age plate model, ridge along x = const, spreading velocity 1..15 cm/yr, ages up to 200 Myr, bottom temperature given or adiabatic; oracle: erfc form, and the converged Fourier series with the magnitude of the terms beyond the 100th as tolerance", 120, gen_cooling, check_cooling, 100, true, true},
+    {"oceanic_cooling", "cartesian oceanic plate with half space / plate / constant-age plate model, ridge along x = const through 2..4 points, spreading velocity 1..15 cm/yr constant or one per ridge point (linear in between), ages up to 200 Myr, bottom temperature given or adiabatic; oracle: erfc form, and the converged Fourier series with the magnitude of the terms beyond the 100th as tolerance", 120, gen_cooling, check_cooling, 100, true, true},
+    {"oceanic_cooling_spherical", "spherical oceanic plate (Earth / Mars radius) with half space / plate model whose ridge runs along the equator through 2..4 points spanning 20..300 degrees, written anywhere in [-360,360] (the query's natural longitude is then often another 360-degree copy), constant or per-point spreading velocities; oracle: the same closed forms with distance R |lat| and the velocity interpolated linearly in longitude", 100, gen_cooling_sph, check_cooling, 100, true, true},
     {"plume_gaussian", "plume with 1..4 cross sections and a gaussian model with 1..4 (depth, centreline temperature, sigma) entries; oracle: Tc(z) exp(-r^2/(2 sigma(z)^2)) with r^2 from the membership form of C04", 120, gen_plume, check_plume, 100, true, true},
     {"line_models", "straight cartesian slab or fault (one straight or arc segment) with a uniform / linear / adiabatic temperature model or a uniform / smooth composition model, own distance range, operations; the distance from the slab top / fault centre comes from the planar construction of C06; oracle: documented expressions (smooth: end members only)", 120, gen_line, check_line, 100, true, true},
     {"grains_velocity", "every feature type with a uniform grains model (Euler angles or listed matrices, fixed or negative sizes) and a uniform raw velocity; oracle: matrices verbatim / z-x-z invariants, sizes as given or 1/k, velocity verbatim", 100, gen_gv, check_gv, 100, true, true},
